@@ -25,6 +25,8 @@
 #include <unistd.h>
 
 #include <atomic>
+#include <condition_variable>
+#include <mutex>
 #include <mutex>
 #include <thread>
 #include <vector>
@@ -53,6 +55,7 @@ struct Ledger {
   int t = 0, seq = 0;          // retiring plan thread, 1-based sequence number in that thread
   bool returned = false;       // retire() returned
   bool before_stop = false;    // retire() returned and that happened-before the stop() call
+  bool late = false;           // retire() was called after stop() had been called (may legitimately be dropped)
   uint64_t epoch = 0;
   int nopen = 0;
   int open_at_retire[MAXREG];  // regions open when the reclaimer was retired (tick taken)
@@ -76,6 +79,7 @@ struct State {
   int returned_count[MAXTH] = {0};
   std::atomic<int> returned_pub[MAXTH];
   bool stop_called = false, stop_returned = false;
+  std::mutex late_mu; std::condition_variable late_cv;  // the late retirer sleeps here until stop() is called (no polling: it would look like progress-free spinning)
   State() { for (int i = 0; i < MAXTH; i++) { closed_pub[i].store(0, std::memory_order_relaxed); returned_pub[i].store(0, std::memory_order_relaxed); } }
 };
 State* S;
@@ -230,6 +234,7 @@ void gen(Rng& r, Plan& p, const GenParams& gp) {
   p.cfg["stop_mode"] = stop_mode;
   p.cfg["stop_at"] = r.chance(1, 2) ? 1 : 0;
   p.cfg["dtor"] = (stop_mode == 1 && r.chance(1, 2)) ? 1 : 0;  // effective only with stop_at == 0
+  if (r.chance(1, 7)) { p.cfg["late"] = (int64_t)r.range(1, 2); p.cfg["late_yield"] = (int64_t)r.below(20); p.cfg["dtor"] = 0; }
   static const int64_t delays[] = {0, 0, 100, 1100, 3000, 30000};
   p.cfg["stop_delay_us"] = delays[r.below(6)];
   static const int64_t pres[] = {0, 0, 500, 2000};
@@ -308,6 +313,30 @@ void run(const Plan& p) {
         // the (unlocked) accessor is released when the thread ends
       });
   }
+  // ---- late retires (relaxed clause): a thread that calls retire() only once
+  // stop() has been called. "Stop after current tasks are finished" promises
+  // nothing for such a task - it may run or be dropped - but it must not be
+  // run twice or early, and stop() must still return. The thread is detached and
+  // never joined: after the collector has left, its retire() may wait on a full
+  // queue for ever, which is the client's problem, not a violation.
+  int nlate = (int)std::max<int64_t>(0, std::min<int64_t>(p.get("late", 0), 2));
+  if (dtor) nlate = 0;
+  if (nlate) {
+    int ly = (int)std::max<int64_t>(0, std::min<int64_t>(p.get("late_yield", 0), 30));
+    std::thread([nlate, ly]() {
+      { std::unique_lock<std::mutex> l(S->late_mu); S->late_cv.wait(l, [] { return S->stop_called; }); }
+      for (int i = 0; i < ly; i++) yield_point();
+      for (int i = 0; i < nlate; i++) {
+        OpScope scope(900000 + i);
+        int id = new_ledger(MAXTH - 1);
+        S->led[id].late = true;
+        Reclaimer rc; rc.id = id;
+        S->gc->retire(std::move(rc));
+        S->led[id].returned = true;
+        probe("late_retire_returned");
+      }
+    }).detach();
+  }
   // ---- choose the moment of stop()
   if (stop_at == 0) {
     for (auto& th : retirers) th.join();
@@ -340,7 +369,8 @@ void run(const Plan& p) {
   if (!quiet && pending) probe("stop_with_region_open_and_tasks_pending");
   if ((size_t)nbefore < total) probe("stop_with_retire_in_flight");
   tracef("stop: quiet=%d pending=%d before=%d total=%zu", (int)quiet, pending, nbefore, total);
-  s.stop_called = true;
+  { std::lock_guard<std::mutex> l(s.late_mu); s.stop_called = true; }
+  s.late_cv.notify_all();
   if (dtor) { delete s.gc; s.gc = nullptr; probe("stopped_by_destructor"); }
   else s.gc->stop();
   s.stop_returned = true;
@@ -357,8 +387,10 @@ void run(const Plan& p) {
   for (auto& th : retirers) th.join();
   for (auto& th : readers) th.join();
   // ---- every retire() had its ticket before the stop marker: all of them must have run, once
-  if ((size_t)s.nled != total) fail("harness", "bookkeeping", "%d reclaimers created, plan has %zu", s.nled, total);
+  { size_t regular = 0; for (int i = 0; i < s.nled; i++) regular += !s.led[i].late;
+    if (regular != total) fail("harness", "bookkeeping", "%zu reclaimers created, plan has %zu", regular, total); }
   for (int i = 0; i < s.nled; i++) {
+    if (s.led[i].late) continue;
     if (!s.led[i].returned) fail("harness", "bookkeeping", "retire of reclaimer %d never returned", i);
     if (s.led[i].invoked == 0) {
       if (!quiet)
@@ -366,10 +398,11 @@ void run(const Plan& p) {
       fail("lost", "end", "reclaimer %d (thread %d retire #%d) was never invoked", i, s.led[i].t, s.led[i].seq);
     }
   }
-  if (s.gc) { s.gc->stop(); delete s.gc; }  // second stop() must be a no-op
+  if (s.gc) { s.gc->stop(); if (!nlate) delete s.gc; }  // second stop() must be a no-op (with a late retirer possibly still inside retire() the object is leaked)
   for (int i = 0; i < s.nled; i++)
-    if (s.led[i].invoked != 1) fail("duplicate", "end", "reclaimer %d invoked %d times", i, s.led[i].invoked);
+    if (s.led[i].late ? s.led[i].invoked > 1 : s.led[i].invoked != 1) fail("duplicate", "end", "reclaimer %d invoked %d times", i, s.led[i].invoked);
   if (total > s.cap) probe("more_retires_than_capacity");
+  if (nlate) return;  // the detached late retirer may still be using the state
   delete S;
   S = nullptr;
 }
